@@ -36,7 +36,7 @@ type Instance struct {
 
 func (in *Instance) finish() {
 	if in.Unwind == 0 {
-		in.Unwind = 64
+		in.Unwind = 512
 	}
 	if in.MaxSteps == 0 {
 		in.MaxSteps = 20_000_000
